@@ -47,6 +47,12 @@ def shards(tier, seed):
             for order in (-1, 0, 1, 2):
                 out.append({"N": N, "sched": sch, "win": "kaiser200", "backend": "cuda", "seed": seed, "tier": tier,
                             "orders": [order]})
+    # backend="auto" in a process where CUDA is available (simulator): bins with more than 1000 segments go to the CUDA
+    # kernels, the others to Numba, within one analysis
+    for mode in ("auto", "cross"):
+        out.append({"N": 1500, "sched": "ltf", "win": "hann", "backend": "cuda", "seed": seed, "tier": tier,
+                    "case": {"N": 1500, "sched": "ltf", "win": "hann", "backend": "auto", "order": 1, "olap": 0.75, "Jdes": 12,
+                             "Kdes": 1, "bmin": 1.0, "Lmin": 1, "mode": mode, "rx": "id1", "ry": "id3", "seed": seed, "light": True}})
     # one plan with more than 2000 bins (linear regime: Jdes far above N/2) per backend and mode
     for backend in ("numba", "numpy"):
         for mode in ("auto", "cross"):
